@@ -39,7 +39,7 @@ func c16Exec(sizes []int, permMangler bool) explore.Exec {
 			viols = append(viols, harness.Viol{Oracle: "enumerate", Sig: "enumerate:" + sig, Msg: fmt.Sprintf(format, a...)})
 		}
 		desc := ""
-		res := harness.RunExec(c, false, 40000000, func() {
+		res := harness.RunExec(c, false, 400000000, func() { // a degenerate (chain-shaped) treap of 3073 items makes VisitItemsRandom quadratic: ~6e7 steps
 			cs.n = sizes[harness.Choose(len(sizes), harness.ClassOp)]
 			cs.kind = harness.Choose(3, harness.ClassOp)
 			rev := harness.Choose(2, harness.ClassOp) == 1
